@@ -152,7 +152,7 @@ theorem foldl_set_getD (l : List (Nat × Int)) (g : Int → Int) (f : Nat → In
         · have e' : ¬ p.1 = j := fun x => e x.symm
           simp [hj, e, List.getD_eq_getElem?_getD, e']
 
-theorem zip_map_self {α β} (l : List α) (g : α → β) : l.zip (l.map g) = l.map fun x => (x, g x) := by
+theorem zip_map_self_mm {α β} (l : List α) (g : α → β) : l.zip (l.map g) = l.map fun x => (x, g x) := by
   induction l with
   | nil => rfl
   | cons a l ih => simp [ih]
@@ -191,7 +191,7 @@ theorem addAlt_spec (c : CMS) (hw : WF c) (hs : List Nat) (hl : hs.length = c.d)
   let old : Nat → Int := fun x => c.bins.getD x 0
   let f : Nat → Int := fun x => clamp (old x + n)
   have hzip : (c.binIdx hs).zip ((c.binIdx hs).map fun x => c.bins.getD x 0 + n) =
-      (c.binIdx hs).map fun x => (x, old x + n) := zip_map_self _ _
+      (c.binIdx hs).map fun x => (x, old x + n) := zip_map_self_mm _ _
   have hmin : ∀ p ∈ (c.binIdx hs).map (fun x => (x, old x + n)), Gen.int32Min ≤ p.2 := by
     intro p hp
     obtain ⟨x, _, rfl⟩ := List.mem_map.mp hp
